@@ -39,7 +39,7 @@ struct Format : Profile {
     {
         return {"image-at-close", "image-at-sync", "linked-element", "linked-multi-table", "external-element", "compressed-element", "chunked-element",
                 "datainfo-linked", "datainfo-short-array", "vdata-record-checked", "vgroup-record-checked", "alias", "dd-blocks>1", "sd-datainfo", "gr-datainfo", "sd-values-checked", "gr-values-checked", "sd-attr-datainfo", "sd-ann-datainfo", "sd-ann-datainfo-short-array",
-                "an-datainfo", "session-view-compared", "vg-member-deleted"};
+                "an-datainfo", "session-view-compared", "vg-member-deleted", "vs-attr-datainfo", "vg-attr-datainfo"};
     }
 
     Plan generate(Rng &rng, bool thorough, uint64_t) override
@@ -295,6 +295,23 @@ struct Format : Profile {
                             ext.clear();
                         datainfo_check(ctx, "VSgetdatainfo", strf("vdata %d", x.ref), ext, [&](unsigned st, unsigned cnt, int32 *o, int32 *l) { return VSgetdatainfo(vs, st, cnt, o, l); });
                     }
+                    // attributes of the vdata and of its fields: where their data lies
+                    for (int32 fi = -1; fi < (int32)v.fields.size(); fi++) {
+                        int32 findex = fi < 0 ? _HDF_VDATA : fi;
+                        intn  na     = VSfnattrs(vs, findex);
+                        for (intn a = 0; a < na; a++) {
+                            char  an[256] = "";
+                            int32 at = 0, cnt = 0, sz = 0, off = -1, len = -1;
+                            if (VSattrinfo(vs, findex, a, an, &at, &cnt, &sz) == FAIL || sz <= 0 || sz > 4096)
+                                continue;
+                            std::vector<uint8_t> val((size_t)sz + 8);
+                            if (VSgetattr(vs, findex, a, val.data()) == FAIL)
+                                ctx.fail("record-mismatch", "record-mismatch:vsattr", strf("VSgetattr(vdata %d, field %d, attribute %d) failed", x.ref, (int)findex, (int)a));
+                            intn rc = VSgetattdatainfo(vs, findex, a, &off, &len);
+                            attr_location(ctx, rd, "VSgetattdatainfo", strf("vdata %d, field %d, attribute %d '%s'", x.ref, (int)findex, (int)a, an), rc, off, len, at, cnt, val.data());
+                            ctx.probe("vs-attr-datainfo");
+                        }
+                    }
                     VSdetach(vs);
                     ctx.probe("vdata-record-checked");
                 }
@@ -323,6 +340,18 @@ struct Format : Profile {
                         ctx.fail("record-mismatch", "record-mismatch:vgroup",
                                  strf("Vgroup %d: the library says %d members, name '%s', class '%s'; the record on disk says %zu, '%s', '%s' (or the member lists differ)", x.ref, (int)n,
                                       nm.data(), cl.data(), g.members.size(), g.name.c_str(), g.cls.c_str()));
+                    for (intn a = 0; a < Vnattrs(vg); a++) {
+                        char  an[256] = "";
+                        int32 at = 0, cnt = 0, sz = 0, off = -1, len = -1;
+                        if (Vattrinfo(vg, a, an, &at, &cnt, &sz) == FAIL || sz <= 0 || sz > 4096)
+                            continue;
+                        std::vector<uint8_t> val((size_t)sz + 8);
+                        if (Vgetattr(vg, a, val.data()) == FAIL)
+                            ctx.fail("record-mismatch", "record-mismatch:vattr", strf("Vgetattr(vgroup %d, attribute %d) failed", x.ref, (int)a));
+                        intn rc = Vgetattdatainfo(vg, a, &off, &len);
+                        attr_location(ctx, rd, "Vgetattdatainfo", strf("vgroup %d, attribute %d '%s'", x.ref, (int)a, an), rc, off, len, at, cnt, val.data());
+                        ctx.probe("vg-attr-datainfo");
+                    }
                     Vdetach(vg);
                     ctx.probe("vgroup-record-checked");
                 }
@@ -360,6 +389,27 @@ struct Format : Profile {
         Hclose(fid);
         // (f) SD datasets and GR images: data locations through their own interfaces
         sd_gr_datainfo(ctx, im, path);
+    }
+
+    // the bytes at the location the library reports for an attribute's data are the attribute's values (file order:
+    // big-endian for the standard number types the workload uses)
+    void attr_location(Ctx &ctx, spec::Reader &rd, const char *call, const std::string &what, intn rc, int32 off, int32 len, int32 nt, int32 count, const void *values)
+    {
+        ctx.st.checks++;
+        size_t es = (size_t)DFKNTsize(nt & ~(DFNT_NATIVE | DFNT_LITEND));
+        if (rc == FAIL)
+            ctx.fail("datainfo-failed", std::string("datainfo-failed:") + call, strf("%s(%s) failed: %s", call, what.c_str(), herr().c_str()));
+        if (es == 0 || es > 8)
+            return;
+        if (len != (int32)(es * (size_t)count) || off < 0 || (size_t)off + (size_t)len > rd.f.size())
+            ctx.fail("datainfo-mismatch", std::string("datainfo-mismatch:") + call + ":extent",
+                     strf("%s(%s) reports offset %d length %d; the attribute has %d values of %zu bytes, the file %zu bytes", call, what.c_str(), (int)off, (int)len, (int)count, es, rd.f.size()));
+        const uint8_t *v = (const uint8_t *)values;
+        for (int32 i = 0; i < count; i++)
+            for (size_t b = 0; b < es; b++)
+                if (rd.f[(size_t)off + (size_t)i * es + b] != v[(size_t)i * es + (es - 1 - b)])
+                    ctx.fail("datainfo-mismatch", std::string("datainfo-mismatch:") + call + ":bytes",
+                             strf("%s(%s): the %d bytes at offset %d are not the values the attribute call returns", call, what.c_str(), (int)len, (int)off));
     }
 
     // values the library hands out (host order) against the element bytes an independent reader recovers (file order)
